@@ -16,6 +16,7 @@ import AdaptixProofs.Lemmas.GenericInv
 import AdaptixProofs.Lemmas.GenericMro
 import AdaptixProofs.Lemmas.GenericPydantic
 import AdaptixProofs.Lemmas.GenericWitness
+import AdaptixProofs.Lemmas.GenericTypeVars
 
 namespace Adaptix.Generic.C16
 
@@ -291,6 +292,207 @@ example : resolve pairSwapped ⟨2, some [intH, strH]⟩ =
     [("first", intH), ("second", strH), ("tail", intH)] := by decide
 
 example : declaredType pairSwapped ⟨1, some [intH, strH]⟩ "first" = some strH := by decide
+
+/-! ### Which type variables a hint mentions: the object layer, for every spelling
+
+  `hasTV`, `isGeneric` and `parametrizeByDict` — the only places where the resolver looks *into* a field
+  type — are structural functions of the hint.  The library does not compute them structurally: it reads
+  `__parameters__` and the class of the Python object (`get_type_vars`, `get_type_vars_of_parametrized`,
+  `is_generic`; `AdaptixModel/Types/GenericTypeVars.lean`), and one type has several spellings represented by
+  objects of different classes: `Optional[list[T]]` / `Union[list[T], None]` (`typing._UnionGenericAlias`),
+  `list[T] | None` (`types.UnionType`), `List[T]` (`typing._GenericAlias`), `list[T]` (`types.GenericAlias`).
+  The theorems below say that the code computes the structural functions for *every* spelling, nested anywhere;
+  `cp` (the `__parameters__` of unsubscribed user generic classes) is arbitrary. -/
+
+/-- **Every subscribed spelling reports exactly the type variables that occur in it** (each once, in order of
+    first occurrence), through `get_type_vars` and through `get_type_vars_of_parametrized`. -/
+theorem type_vars_of_every_spelling (cp : String → List TVar) (f a : Hint) :
+    getTypeVars (objOf cp (.app f a)) = (Hint.app f a).tvs.eraseDups ∧
+    typeVarsOfParametrized (objOf cp (.app f a)) = (Hint.app f a).tvs.eraseDups ∧
+    ∀ v, v ∈ typeVarsOfParametrized (objOf cp (.app f a)) ↔ v ∈ (Hint.app f a).tvs := by
+  refine ⟨getTypeVars_app cp f a, typeVarsOfParametrized_app cp f a, fun v => ?_⟩
+  rw [typeVarsOfParametrized_app]
+  exact List.mem_eraseDups
+
+/-- **The spelling is irrelevant**: two subscribed hints that mention the same type variables — `Optional[list[T]]`
+    and `list[T] | None`, `Union[dict[str, T], int]` and `dict[str, T] | int` — are indistinguishable for
+    `get_type_vars_of_parametrized`. -/
+theorem spelling_irrelevant (cp : String → List TVar) (f a g b : Hint)
+    (h : (Hint.app f a).tvs = (Hint.app g b).tvs) :
+    typeVarsOfParametrized (objOf cp (.app f a)) = typeVarsOfParametrized (objOf cp (.app g b)) := by
+  rw [typeVarsOfParametrized_app, typeVarsOfParametrized_app, h]
+
+/-- `get_type_vars_of_parametrized(tp) or isinstance(tp, TypeVar)` — the early exit of
+    `_get_members_by_parents` and the `if not params` of `_parametrize_by_dict` — is `hasTV`. -/
+theorem hasTV_is_code (cp : String → List TVar) (t : Hint) :
+    (!(typeVarsOfParametrized (objOf cp t)).isEmpty || (objOf cp t).isTypeVar) = t.hasTV := by
+  cases t with
+  | tv v => simp [objOf, Hint.hasTV]
+  | atom n b =>
+    rw [typeVarsOfParametrized_atom]
+    cases b with
+    | false =>
+      by_cases h : n = unionTypeClassName <;> simp [objOf, h, Hint.hasTV]
+    | true =>
+      by_cases h1 : n ∈ builtinGenericNames
+      · by_cases h2 : n ∈ builtinAliasOrigins <;> simp [objOf, h1, h2, Hint.hasTV]
+      · simp [objOf, h1, Hint.hasTV]
+  | con o => simp [objOf, typeVarsOfParametrized, getTypeVars, Hint.hasTV]
+  | app f a =>
+    rw [typeVarsOfParametrized_app, objOf_app_isTypeVar, eraseDups_isEmpty, Hint.hasTV_eq_tvs]
+    simp
+
+/-- `is_generic(value) or isinstance(value, TypeVar)` — the guard of the dict comprehension that ends
+    `_get_members_by_parents` — is `isGeneric` (an atom is marked `bare` only when it is an unsubscribed builtin
+    generic or a class with a non-empty `__parameters__`). -/
+theorem isGeneric_is_code (cp : String → List TVar) (hcp : ∀ n, cp n ≠ []) (t : Hint) :
+    (isGenericCode (objOf cp t) || (objOf cp t).isTypeVar) = t.isGeneric := by
+  cases t with
+  | tv v => simp [objOf, Hint.isGeneric]
+  | atom n b =>
+    cases b with
+    | false =>
+      by_cases h : n = unionTypeClassName <;> simp [objOf, h, Hint.isGeneric, isGenericCode, getTypeVars]
+    | true =>
+      by_cases h1 : n ∈ builtinGenericNames
+      · by_cases h2 : n ∈ builtinAliasOrigins <;> simp [objOf, h1, h2, Hint.isGeneric, isGenericCode, getTypeVars]
+      · simp [objOf, h1, Hint.isGeneric, isGenericCode, getTypeVars, hcp n]
+  | con o => simp [objOf, isGenericCode, getTypeVars, Hint.isGeneric]
+  | app f a =>
+    have h := hasTV_is_code cp (.app f a)
+    rw [typeVarsOfParametrized_app, objOf_app_isTypeVar] at h
+    simp only [isGenericCode, getTypeVars_app, objOf_app_hasArgs, objOf_app_isTypeVar]
+    simpa [Hint.isGeneric, Hint.hasTV] using h
+
+/-- **`_parametrize_by_dict` as written** — look the hint up among the keys, collect `__parameters__`, subscribe the
+    object with the tuple of actual arguments — **is simultaneous substitution**, whatever object represents the
+    hint, as soon as the dict has every type variable of the hint among its keys. -/
+theorem parametrize_by_dict_is_code (cp : String → List TVar) (σ : Subst) (t : Hint)
+    (h : ∀ v ∈ t.tvs, (σ.lookup v).isSome = true) :
+    parametrizeByDictCode cp σ t = some (parametrizeByDict σ t) := by
+  cases t with
+  | tv v =>
+    have hv := h v (by simp [Hint.tvs])
+    cases hl : σ.lookup v with
+    | none => simp [hl] at hv
+    | some a => simp [parametrizeByDictCode, parametrizeByDict, hl]
+  | atom n b =>
+    simp only [parametrizeByDictCode, typeVarsOfParametrized_atom]
+    simp [parametrizeByDict, Hint.hasTV]
+  | con o => simp [parametrizeByDictCode, parametrizeByDict, Hint.hasTV, objOf, typeVarsOfParametrized, getTypeVars]
+  | app f a =>
+    simp only [parametrizeByDictCode, typeVarsOfParametrized_app]
+    rw [parametrizeByDict_eq_subst]
+    cases he : (Hint.app f a).tvs.eraseDups with
+    | nil =>
+      have : (Hint.app f a).tvs = [] := (eraseDups_eq_nil_iff _).mp he
+      simp [Hint.subst_of_closed σ _ this]
+    | cons x xs =>
+      obtain ⟨as, has, hlk⟩ := lookupAll_spec σ (Hint.app f a).tvs.eraseDups
+        (fun v hv => h v (List.mem_eraseDups.mp hv))
+      rw [he] at has hlk
+      simp only [List.isEmpty_cons, Bool.false_eq_true, if_false, has, Option.map_some, subscript]
+      congr 1
+      apply Hint.subst_congr
+      intro v hv
+      exact hlk v (by rw [← he]; exact List.mem_eraseDups.mpr hv)
+
+/-- … and a type variable of the hint that is missing from the dict is a `KeyError`, not a silent pass-through
+    (the structural `subst` leaves it in place; `Wf` keeps the model away from this case). -/
+theorem parametrize_by_dict_key_error (cp : String → List TVar) (σ : Subst) (f a : Hint) (v : TVar)
+    (hv : v ∈ (Hint.app f a).tvs) (hm : σ.lookup v = none) :
+    parametrizeByDictCode cp σ (.app f a) = none := by
+  simp only [parametrizeByDictCode, typeVarsOfParametrized_app]
+  have hmem : v ∈ (Hint.app f a).tvs.eraseDups := List.mem_eraseDups.mpr hv
+  cases he : (Hint.app f a).tvs.eraseDups with
+  | nil => rw [he] at hmem; cases hmem
+  | cons x xs =>
+    rw [he] at hmem
+    simp [lookupAll_none σ (x :: xs) v hmem hm]
+
+/-- The guard of `get_type_vars` is there for one object only: the *class* `types.UnionType`, whose
+    `__parameters__` is a descriptor and not a tuple. -/
+theorem union_type_class_has_no_type_vars (cp : String → List TVar) :
+    getTypeVars (objOf cp (.atom unionTypeClassName false)) = [] := by
+  simp [objOf, getTypeVars]
+
+/-- `list[T] | None` as the grammar writes it (`types.UnionType`) -/
+def pep604OptList (t : Hint) : Hint := .app (.app (.con pep604Origin) (.app (.con "list") t)) (.atom "None" false)
+/-- `Optional[list[T]]` (`typing._UnionGenericAlias`) -/
+def typingOptList (t : Hint) : Hint := .app (.con "Optional") (.app (.con "list") t)
+
+/-- **An over-wide guard is refuted**: a `get_type_vars` that answers `()` for every object whose origin is
+    `types.UnionType` (instances as well as the class) makes `get_type_vars_of_parametrized` differ between two
+    spellings of one type, so it is not the function the resolver needs. -/
+theorem wide_union_guard_refuted :
+    ¬ (∀ (gtv : PyObj → List TVar),
+        (∀ o, o.spelling = .pep604Union → gtv o = []) →
+        (∀ o, o.spelling ≠ .pep604Union → gtv o = getTypeVars o) →
+        ∀ t : Hint, gtv (objOf (fun _ => [0]) (pep604OptList t)) = gtv (objOf (fun _ => [0]) (typingOptList t))) := by
+  intro h
+  have := h (fun o => if o.spelling = .pep604Union then [] else getTypeVars o)
+    (fun o ho => by simp [ho]) (fun o ho => by simp [ho]) (.tv 0)
+  revert this
+  decide
+
+-- non-vacuity: the object facts of the two spellings, and what the code computes on them
+example : (objOf (fun _ => [0]) (pep604OptList (.tv 3))).spelling = .pep604Union ∧
+    (objOf (fun _ => [0]) (typingOptList (.tv 3))).spelling = .typingUnion ∧
+    (objOf (fun _ => [0]) (.app (.con "list") (.tv 3))).spelling = .builtinAlias ∧
+    (objOf (fun _ => [0]) (.app (.con "List") (.tv 3))).spelling = .typingAlias := by decide
+
+example : typeVarsOfParametrized (objOf (fun _ => [0]) (pep604OptList (.tv 3))) = [3] ∧
+    typeVarsOfParametrized (objOf (fun _ => [0]) (typingOptList (.tv 3))) = [3] ∧
+    isGenericCode (objOf (fun _ => [0]) (pep604OptList (.tv 3))) = true ∧
+    isGenericCode (objOf (fun _ => [0]) (pep604OptList intH)) = false := by decide
+
+-- `(dict[str, T1] | list[T0] | T1-free int)[...]`: parameters in order of first occurrence, each once
+example : typeVarsOfParametrized (objOf (fun _ => [0])
+    (.app (.app (.app (.con pep604Origin) (.app (.app (.con "dict") (.tv 1)) (.tv 0))) (.app (.con "list") (.tv 1))) intH))
+    = [1, 0] := by decide
+
+example : parametrizeByDictCode (fun _ => [0]) [(3, intH)] (pep604OptList (.tv 3)) = some (pep604OptList intH) := by
+  decide
+
+example : parametrizeByDictCode (fun _ => [0]) [(2, intH)] (pep604OptList (.tv 3)) = none := by decide
+
+-- an unsubscribed user generic class: `get_type_vars` is not empty, `get_type_vars_of_parametrized` is
+example : getTypeVars (objOf (fun _ => [7]) (.atom "Box" true)) = [7] ∧
+    typeVarsOfParametrized (objOf (fun _ => [7]) (.atom "Box" true)) = [] ∧
+    isGenericCode (objOf (fun _ => [7]) (.atom "Box" true)) = true ∧
+    isGenericCode (objOf (fun _ => [7]) (.atom "list" true)) = true ∧
+    isGenericCode (objOf (fun _ => [7]) (.atom "List" true)) = true := by decide
+
+/-- a class table whose generic fields are spelled as PEP 604 unions, own and inherited:
+    ```
+    class Box(Generic[T0]):          tag: T0 ; items: list[T0] | None ; legacy: Optional[list[T0]]
+    class IntBox(Box[int]):          pass
+    class Pair(Box[T1], Generic[T0, T1]):   other: dict[str, T0] | int
+    ``` -/
+def unionBox : Hierarchy where
+  kind := .dataclass
+  tvars := [(0, ⟨[], none⟩), (1, ⟨[], none⟩)]
+  classes := [
+    { params := [0], ownOrigBases := some [], bases := [], mro := [0],
+      ownAnn := [("tag", .tv 0), ("items", pep604OptList (.tv 0)), ("legacy", typingOptList (.tv 0))] },
+    { params := [], ownOrigBases := some [⟨0, some [intH]⟩], bases := [⟨0, none⟩], mro := [1, 0], ownAnn := [] },
+    { params := [0, 1], ownOrigBases := some [⟨0, some [.tv 1]⟩], bases := [⟨0, none⟩], mro := [2, 0],
+      ownAnn := [("other", .app (.app (.con pep604Origin) (.app (.app (.con "dict") strH) (.tv 0))) intH)] }]
+
+example : Wf unionBox ∧ MroMonotone unionBox ∧ NoConflict unionBox := by decide
+
+example : resolve unionBox ⟨0, some [intH]⟩ =
+    [("tag", intH), ("items", pep604OptList intH), ("legacy", typingOptList intH)] := by decide
+
+example : resolve unionBox ⟨1, none⟩ =
+    [("tag", intH), ("items", pep604OptList intH), ("legacy", typingOptList intH)] := by decide
+
+example : resolve unionBox ⟨2, some [strH, intH]⟩ =
+    [("tag", intH), ("items", pep604OptList intH), ("legacy", typingOptList intH),
+     ("other", .app (.app (.con pep604Origin) (.app (.app (.con "dict") strH) strH)) intH)] := by decide
+
+example : ResolveEqSpec unionBox :=
+  resolve_eq_spec_no_conflict unionBox (by decide) (by decide) (by decide) (by decide) (by decide)
 
 /-! ### The full-strength statement is refuted by two concrete class tables -/
 
